@@ -138,8 +138,17 @@ void c13_curve(vf::Tape & t, vf::Ctx & ctx)
   // end values outside the range
   const G gmin = bs(bs.t_min()), gmax = bs(bs.t_max());
   // (not bitwise: at t_max the window coordinate may come out as u = 1 - O(eps |t| / dt) instead of the clamped u = 1)
-  ctx.le("value before t_min == value at t_min", rel(mat_of(bs(bs.t_min() - t.lrange(1e-9, 1e3) * dt)), mat_of(gmin)), 1e-9);
-  ctx.le("value after t_max == value at t_max", rel(mat_of(bs(bs.t_max() + t.lrange(1e-9, 1e3) * dt)), mat_of(gmax)), 1e-9);
+  // "outside that range" has no upper limit: distances up to 1e15 knot intervals (beyond 2^31 and 2^53 of them)
+  const double far_lo = t.choice(3) == 0 ? t.lrange(1e3, 1e15) : t.lrange(1e-9, 1e3), far_hi = t.choice(3) == 0 ? t.lrange(1e3, 1e15) : t.lrange(1e-9, 1e3);
+  ctx.label(far_hi > 2.2e9 ? "outside:beyond-2^31-intervals" : "outside:near");
+  ctx.le("value before t_min == value at t_min", rel(mat_of(bs(bs.t_min() - far_lo * dt)), mat_of(gmin)), 1e-9);
+  ctx.le("value after t_max == value at t_max", rel(mat_of(bs(bs.t_max() + far_hi * dt)), mat_of(gmax)), 1e-9);
+  {
+    T vo, ao;
+    bs(bs.t_max() + far_hi * dt, vo, ao);
+    const G gl = bs(bs.t_min() - far_lo * dt, vo, ao);
+    ctx.le("value and derivatives far outside", rel(mat_of(gl), mat_of(gmin)), 1e-9);
+  }
   ctx.le("value at t_min is the start of the first window", rel(mat_of(gmin), ref_eval<K, G>(P, t0, dt, t0).X), 1e-9);
   ctx.le("value at t_max is the end of the last window", rel(mat_of(gmax), ref_eval<K, G>(P, t0, dt, bs.t_max()).X), 1e-9);
 
